@@ -279,6 +279,7 @@ StepClause(st) ==
       \* the recursion that follows a change of the method set made by the running method: a call over the set after the change
       c5n == IF "C05N" \in Props THEN PlainClause(st) ELSE ""
       c8n == IF "C08N" \in Props THEN PlainClause(st) ELSE ""
+      c16n == IF "C16N" \in Props THEN PlainClause(st) ELSE ""
       c10 == IF "C10" \in Props THEN C10Clause(st)
              ELSE IF "C10G" \in Props THEN
                   (IF \E q \in DOMAIN st.obs.predlog : ~Sat(W, st.obs.predlog[q].t.bound, st.obs.predlog[q].a.c)
@@ -294,6 +295,7 @@ StepClause(st) ==
      ELSE IF c3v # "" THEN "C03:" \o c3v
      ELSE IF c5n # "" THEN "C05:change_during_call." \o c5n
      ELSE IF c8n # "" THEN "C08:recursion_after_change." \o c8n
+     ELSE IF c16n # "" THEN "C16:change_reaches_every_linked_child." \o c16n
      ELSE IF c1 # "" THEN "C01:" \o c1
      ELSE IF c2 # "" THEN "C02:" \o c2
      ELSE IF c7 # "" THEN "C07:" \o c7
